@@ -14,7 +14,7 @@ VERIF_NO_EVIDENCE=1 VERIF_THREADS=4 VERIF_TASK_LIMIT=${VERIF_TASK_LIMIT:-24} VER
 rc=$?
 end=$(date +%s)
 errs=$(grep -c "^==[0-9]*== [A-Z]" $LOG 2>/dev/null); errs=${errs:-0}
-line=$(grep -E "^ALL quick" /verif/out/memcheck.stdout | head -1)
+line=$(grep -E "^ALL quick" /verif/out/memcheck.stdout | head -1 | tr -d '"')
 echo "{\"tool\": \"valgrind memcheck $(valgrind --version)\", \"exit\": $rc, \"error_lines\": $errs, \"wall_s\": $((end-start)), \"workload\": \"$line\"}" > /verif/sanitize/memcheck.last.json
 cat /verif/sanitize/memcheck.last.json
 if [ $rc -eq 99 ] || [ "$errs" != "0" ]; then echo "INCONCLUSIVE: memcheck reported errors; see $LOG"; exit 2; fi
